@@ -80,7 +80,7 @@ fn alphabet() -> Vec<Vec<u8>> {
     v
 }
 
-const CLASS_TOK: [&str; 11] = ["patch-", "emul-", "-patch-", "local-", "x", "foo.", ".orig", ".rej", "~", ".tar.", "d/"];
+const CLASS_TOK: [&[u8]; 13] = [b"patch-", b"emul-", b"-patch-", b"local-", b"x", b"foo.", b".orig", b".rej", b"~", b".tar.", b"d/", b"\xe9", b"\xc3\xa0"];
 
 fn check_class(t: &mut Tally, name: &[u8]) {
     if name.is_empty() || name.ends_with(b"/") {
@@ -134,7 +134,7 @@ fn main() {
 
     // (a)
     let alpha = alphabet();
-    let n = run.pick(4, 5);
+    let n = run.pick(5, 6);
     run.bound(format!("(a) all {} sequences of <= {} lines over {} lines", seqs::count(alpha.len(), n), n, alpha.len()));
     seqs::par_seqs(&run, "C11(a)", alpha.len(), n, 2, |_| false, |s, t| {
         let mut text = vec![];
@@ -204,13 +204,13 @@ fn main() {
 
     // (c)
     let m = run.pick(4, 5);
-    run.bound(format!("(c) all {} names of <= {} tokens over {:?}", seqs::count(CLASS_TOK.len(), m), m, CLASS_TOK));
+    run.bound(format!("(c) all {} names of <= {} tokens over {:?}", seqs::count(CLASS_TOK.len(), m), m, CLASS_TOK.iter().map(|t| String::from_utf8_lossy(t).into_owned()).collect::<Vec<_>>()));
     seqs::par_seqs(&run, "C11(c)", CLASS_TOK.len(), m, 2, |_| false, |s, t| {
-        let name: String = s.iter().map(|i| CLASS_TOK[*i]).collect();
-        if name.contains("patch-") {
+        let name: Vec<u8> = s.iter().flat_map(|i| CLASS_TOK[*i].iter().copied()).collect();
+        if name.windows(6).any(|w| w == b"patch-") {
             t.nontrivial += 1;
         }
-        check_class(t, name.as_bytes());
+        check_class(t, &name);
     });
     run.finish();
 }
